@@ -128,6 +128,9 @@ def _run(prop: str, args, t0: float) -> int:
             f"   sensitivity (E9): {sens.get('mutants', 0)} in-memory mutants of {len(sens.get('functions_mutated', []))} functions: "
             f"{sens.get('killed', 0)} killed, {sens.get('undecided', 0)} undecidable, {sens.get('survived', 0)} survived, {sens.get('error', 0)} checker errors"
         )
+        if os.environ.get("VERIF_ALL_SURVIVORS"):
+            for lab in sens.get("survivor_samples", []):
+                print(f"   survivor  : {lab}")
     wall = time.time() - t0
     if not args.no_evidence and replay_key is None:
         _write_evidence(prop, args, repo, ctx, results, violations, known_hits, n_inst, n_ok, wall, sens)
